@@ -1454,3 +1454,67 @@ def snprintf_fit(P, R, rule, fns, what='tests of a formatted length against its 
                              key='fit:%s:%s' % (f.name, res))
                         R.obligations[-1]['function'] = f.name
     R.floor(rule, 1, what)
+
+
+def vector_growth(P, R, rule, what='capacity updates of the vector templates'):
+    """The vector templates (DEFINE_VECTOR) make room by replacing the capacity with a larger one - in `_append` when the
+    vector is full, in `_reserve` in a loop until the request fits.  Every such update yields a capacity strictly
+    greater than the old one for EVERY old capacity, the smallest included (capacity 1: `size + (size >> 1)` is still
+    1 - the append then writes one element past the block, and the reserve loop never ends).  Decided on the update
+    expression itself: built from the old capacity with +, *, << and >> by constants (no subtraction), new - old does
+    not decrease as the capacity grows, so it is enough that it is positive for the smallest non-zero capacity."""
+    def ev_(e, env):
+        while isinstance(e, dict) and e.get('k') in ('cast', 'paren'):
+            e = e.get('e')
+        if not isinstance(e, dict):
+            return None
+        c = const_of(e)
+        if isinstance(c, int):
+            return c
+        t = sx(e)
+        if t in env:
+            return env[t]
+        if e.get('k') == 'bin' and e.get('op') in ('+', '*', '<<', '>>'):
+            a, b = ev_(e.get('l'), env), ev_(e.get('r'), env)
+            if a is None or b is None:
+                return None
+            return {'+': a + b, '*': a * b, '<<': a << b if 0 <= b < 64 else None, '>>': a >> b if 0 <= b < 64 else None}[e['op']]
+        if e.get('k') == 'cond':
+            cv = ev_(e.get('c'), env)
+            if cv is None:
+                return None
+            return ev_(e.get('t') if cv else e.get('f'), env)
+        return None
+    n = 0
+    for f in P.fns.values():
+        if f.unit.startswith('tests/'):
+            continue
+        for s in f.stores():
+            ev = s.ev
+            lhs = ev.get('lhs') or {}
+            if not (ev['k'] == 'store' and lhs.get('k') == 'mem' and lhs.get('field') == 'size'):
+                continue
+            rec = P.records.get(lhs.get('rec')) or {}
+            if not {'used', 'size', 'vec'} <= {fd['name'] for fd in rec.get('fields', ())}:
+                continue
+            old = sx(lhs)
+            rhs = ev.get('rhs')
+            op = ev.get('op')
+            if op in ('<<=', '*=', '+='):
+                rhs = {'k': 'bin', 'op': op[:-1], 'l': lhs, 'r': rhs}
+            elif op != '=':
+                continue
+            if not isinstance(rhs, dict) or not any(sx(x) == old for x in walk(rhs)):
+                continue         # an absolute value (0, a requested length): not a growth step
+            n += 1
+            g1 = ev_(rhs, {old: 1})
+            g0 = ev_(rhs, {old: 0})
+            in_loop = s.bid in f.reach([e.dst for e in f.out[s.bid]])
+            if g1 is None:
+                R.broke('%s: the capacity update %s at %s is not built from +, *, << and >> by constants' % (rule, sx(rhs), s.loc))
+                continue
+            # capacity 0 is excluded where a guard says so (`if (size == 0) size = len; else while ...`)
+            zero_excluded = any(isinstance(g[0], dict) and sx(g[0]) == old and ((g[1] == '!=' and const_of(g[2]) == 0) or (g[1] == '>' and const_of(g[2]) == 0)) for g in f.guards(s.bid))
+            ok = g1 > 1 and (zero_excluded or (g0 is not None and g0 > 0))
+            R.ob(rule, ok, s, 'in %s the new capacity %s exceeds the old one for every old capacity (old 1 -> %s%s)' % (f.name, sx(rhs), g1, '' if zero_excluded else ', old 0 -> %s' % g0), key='grow:%s' % f.name.split('_')[-1])
+    R.floor(rule, 2, what)
